@@ -270,6 +270,15 @@ def run18(prop, tier, seed, work):
                 sc.append({"sid": sid, "prop": prop, "vals": [v], "tags": [], "dkey": sid,
                            "steps": [{"op": "allocs", "ty": s, "v": 0, "calls": 100}]})
             batches.append(Batch("random%d" % i, ur, sc, env={"GOMAXPROCS": "1"}))
+    # enum containers whose elements do not fit 32 bits (the wire carries the low 32 bits; measuring that must stay free)
+    eb = {"EnumBig": U.struct([U.field(1, "default", U.L(U.T("enum"))), U.field(2, "default", U.SET(U.T("enum"))), U.field(3, "default", U.M(U.T("enum"), U.T("enum"))),
+                               U.field(4, "default", U.T("enum")), U.field(5, "optional", U.T("enum", True))])}
+    U.with_defaults(eb)
+    bigs = [[0, 0, 0, 0, 128, 0, 0, 0], [255, 255, 255, 0, 0, 0, 0, 0], [0, 0, 1, 0, 0, 0, 0, 5], [127, 255, 255, 255, 255, 255, 255, 255], [0, 0, 0, 0, 0, 0, 0, 7]]
+    ebv = {"f": {"1": {"nil": False, "items": bigs}, "2": {"nil": False, "items": bigs[:3]}, "3": {"nil": False, "ents": [[bigs[0], bigs[1]], [bigs[4], bigs[2]]]},
+                 "4": bigs[1], "5": {"p": 1, "v": bigs[3]}}, "unk": []}
+    batches.append(Batch("enum-big", eb, [{"sid": "C18-enum-beyond-32-bits", "prop": prop, "vals": [ebv], "tags": ["enum-beyond-32-bits"], "dkey": "enum-big",
+                                           "steps": [{"op": "allocs", "ty": "EnumBig", "v": 0, "calls": 100}]}], env={"GOMAXPROCS": "1"}))
     # every call sees a larger value than any call before (a string field grows by a few bytes each time)
     gsc = []
     for s in sorted(uf.keys()):
